@@ -264,6 +264,48 @@ def run_wrapper(case, ctx):
     ctx.nontrivial(int(iters) >= 2 and bool(b or con or pen))
 
 
+# --------------------------------------------------------------------------- ensembles, observed after every Step
+def _ens_cases(tier):
+    """the C09 ensemble configurations, always driven Step by Step, with DE members as often as simplex ones"""
+    from vp.props import c09
+
+    def fix(c):
+        c = dict(c); c['mode'] = 'step'
+        if c['map'] == 'forked': c['map'] = 'serial'
+        return c
+    return c09.ens_cases(tier).map(fix)
+
+
+def run_ensemble(case, ctx):
+    from vp.props import c09
+    s, cost, pen, sink = c09.build(case)
+    pen_at = (lambda v: pen(list(v))) if pen is not None else (lambda v: 0.0)
+    s.SetObjective(cost)
+    where = dict(kind=case['kind'], nested=case['nested'], given_as=case['as'], map=case['map'])
+    changed = 0; last = None; steps = 0
+    for k in range(case['maxiter'] + 5):
+        msg = s.Step(disp=0, **(s._vp_first_kw if k == 0 else {}))
+        steps += 1
+        be = float(s.bestEnergy)
+        if math.isfinite(be):
+            bs = lab.fvec(s.bestSolution)
+            rec = cost.lookup(bs)
+            ctx.expect(rec is not None, 'C01.evaluated', lambda: dict(where, boundary=k, bestSolution=bs, bestEnergy=be,
+                                                                      note='the ensemble reports a point the cost was never called at'))
+            if rec is not None:
+                want = rec + pen_at(bs)
+                ctx.expect(feq(be, want), 'C01.energy', lambda: dict(where, boundary=k, bestSolution=bs, bestEnergy=be, recorded=rec,
+                                                                     penalty=float(pen_at(bs)), expected=float(want)))
+            if last is not None and (bs, be) != last: changed += 1
+            last = (bs, be)
+        if msg:
+            break
+    ctx.label('ens:' + case['kind'], 'nested:' + case['nested'], 'as:' + case['as'], 'map:' + case['map'])
+    if case.get('penalty'): ctx.label('penalty')
+    if case.get('constraint'): ctx.label('constraint')
+    ctx.nontrivial(steps >= 3 and changed >= 1)
+
+
 TESTS = [
     Test('class', run_class, strategy=lambda tier: configs(tier, clip_modes=((None, None), (True, None), (False, None), (True, True), (None, True))),
          examples={'quick': 8000, 'thorough': 120000}),
@@ -275,6 +317,9 @@ TESTS = [
     # shrunk vertex that becomes the best must be a point the cost was called at
     Test('nm_shrink', run_class, strategy=lambda tier: _shrink_cases(tier),
          examples={'quick': 2400, 'thorough': 50000}),
+    # 'or an ensemble of them': Lattice / Buckshot / Sparsity driven Step by Step, the reported pair checked at every boundary
+    Test('ensemble', run_ensemble, strategy=lambda tier: _ens_cases(tier),
+         examples={'quick': 1200, 'thorough': 20000}),
 ]
 
 def _shrink_cases(tier):
